@@ -227,9 +227,9 @@ PROPERTIES["C02"] = dict(
              "as C02.host.left", [("hb", B(2)), ("hl", "usize"), ("rb", B(3)), ("rl", "usize"), ("fb", B(2)), ("fl", "usize"), ("tb", B(2)), ("tl", "usize")], "c02_host",
              asserts="match <=> ... with the remainder equal to the URL text after that occurrence", stubs=STD_REGEX_STUBS, consts={"la": True, "ra": True}),
     ],
-    level_text="Decides that every non-regex matcher path agrees with the ABP reference semantics: hostname anchoring at label boundaries (all occurrences), and the plain / left / right / left+right anchored literal arms incl. case folding; thorough adds the host-anchored arms with the remainder directly after the host.",
-    level_note="Partial. Decided: is_anchored_by_hostname and the literal matcher arms for all byte strings inside the bounds. Outside: '*'/'^' patterns and /re/ rules (compile_regex + regex crate cannot be compiled by Kani), hence the weakening relations; parse-time extraction of hostname/pattern from rule text; the unanchored host arm (str::contains: >20 min); the right-anchored-only host arm (arises only from '||host*...|', excluded by the property). Known finding (role remainder-after-first-occurrence-in-url) in thorough.",
-    outside=["'*' / '^' -> regex translation and /re/ rules (Kani ICE on the regex crate)", "parse-time extraction for '||host^...' (uses a Regex)", "unanchored host arm '||host*rest' (str::contains >20 min)", "right-anchored-only host arm (outside the property's domain)"],
+    level_text="Decides that every non-regex matcher path agrees with the ABP reference semantics: hostname anchoring at label boundaries (all occurrences), and the plain / left / right / left+right anchored literal arms incl. case folding; thorough adds the host-anchored arms (left, left+right, and the unanchored `||host*text` arm) with the remainder after the host.",
+    level_note="Partial. Decided: is_anchored_by_hostname and the literal matcher arms for all byte strings inside the bounds. Outside: '*'/'^' patterns and /re/ rules (compile_regex + regex crate cannot be compiled by Kani), hence the weakening relations; parse-time extraction of hostname/pattern from rule text; the right-anchored-only host arm (arises only from '||host*...|', excluded by the property). Known finding (role remainder-after-first-occurrence-in-url) in thorough.",
+    outside=["'*' / '^' -> regex translation and /re/ rules (Kani ICE on the regex crate)", "parse-time extraction for '||host^...' (uses a Regex)", "right-anchored-only host arm (outside the property's domain)"],
     assumptions=["request hostnames satisfy the documented validity predicate (non-empty [a-z0-9-] labels joined by single dots)", "Request.hostname is the host slice of Request.url (what Request::new guarantees)"],
 )
 
